@@ -47,6 +47,9 @@ inductive Kind where
 /-- the table of entry points: name in the line protocol ↦ data flow -/
 def table : List (String × Kind) := [
   ("randombytes_buf", .raw 32), ("copy_randombytes", .raw 24),
+  ("copy_randombytes17", .raw 17), ("copy_randombytes37", .raw 37), ("randombytes_buf21", .raw 21),
+  ("stack_gen37", .raw 37), ("array_gen20", .raw 20), ("vec_gen33", .raw 33),
+  ("pwhash_hash_salt32", .raw 32), ("pwhash_hash_salt21", .raw 21), ("pwhash_hash_salt64", .raw 64),
   ("secretbox_keygen", .raw 32), ("secretbox_keygen_inplace", .raw 32),
   ("box_keypair", .keypair), ("box_keypair_inplace", .keypair), ("kx_keypair", .keypair),
   ("kdf_keygen", .raw 32), ("auth_keygen", .raw 32), ("onetimeauth_keygen", .raw 32),
